@@ -36,8 +36,11 @@ struct Model {
     next_id: u64,
     hash: BTreeSet<Col>,
     btree: BTreeSet<Col>,
-    /// an explicit transaction that had touched rows was rolled back earlier in this case
+    /// earlier in this case a transaction whose update/delete steps had matched rows was rolled back
+    /// while some index existed (the undo log then carries index entries to restore)
     rolled_back: bool,
+    /// number of update/delete statements so far that matched rows
+    touched: u64,
 }
 
 #[derive(Clone, Copy, PartialEq, Eq, Debug)]
@@ -932,6 +935,7 @@ fn apply_dml(ctx: &mut CaseCtx, eng: &RelationalEngine, m: &mut Model, d: &Dml, 
                         }
                     }
                     if !ids.is_empty() {
+                        m.touched += 1;
                         ctx.label("op:update(hit)");
                         if sets.iter().any(|(i, _)| m.hash.contains(&Col::C(*i)) || m.btree.contains(&Col::C(*i))) {
                             ctx.label("op:update of indexed column");
@@ -970,6 +974,7 @@ fn apply_dml(ctx: &mut CaseCtx, eng: &RelationalEngine, m: &mut Model, d: &Dml, 
                         m.rows.remove(id);
                     }
                     if !ids.is_empty() {
+                        m.touched += 1;
                         ctx.label("op:delete(hit)");
                     }
                     if n != ids.len() {
@@ -1066,7 +1071,7 @@ fn run_case_on(case: &Case, ctx: &mut CaseCtx, sut: &Sut, probe_every_write: boo
     if let Err(e) = eng.create_table(&tn(), to_schema(&case.cols)) {
         return Err(Fail::new("create-table:err", format!("create_table failed: {e:?}")));
     }
-    let mut m = Model { cols: case.cols.clone(), rows: BTreeMap::new(), next_id: 1, hash: BTreeSet::new(), btree: BTreeSet::new(), rolled_back: false };
+    let mut m = Model { cols: case.cols.clone(), rows: BTreeMap::new(), next_id: 1, hash: BTreeSet::new(), btree: BTreeSet::new(), rolled_back: false, touched: 0 };
     for c in &case.cols {
         ctx.label(format!("col:{}{}", c.ty.name(), if c.nullable { "?" } else { "" }));
     }
@@ -1215,7 +1220,7 @@ fn run_case_on(case: &Case, ctx: &mut CaseCtx, sut: &Sut, probe_every_write: boo
                     }
                     // ids handed out inside the transaction are not reused
                     m.next_id = work.next_id;
-                    m.rolled_back = true;
+                    m.rolled_back |= work.touched != m.touched && !(m.hash.is_empty() && m.btree.is_empty());
                     ctx.label("op:tx rollback");
                     if !m.hash.is_empty() || !m.btree.is_empty() {
                         ctx.label("op:tx rollback with index present");
